@@ -552,6 +552,92 @@ func init() {
 	}
 }
 
+func (in *Interp) strSlice(st *State, ss []string) Value {
+	e := make([]Value, len(ss))
+	for i := range ss {
+		e[i] = StrV{S: ss[i]}
+	}
+	if len(ss) == 0 {
+		return SliceV{Obj: -1, Off: IntC(0), Len: IntC(0), Cap: IntC(0)}
+	}
+	id := st.alloc(&ArrayV{E: e})
+	n := IntC(int64(len(ss)))
+	return SliceV{Obj: id, Off: IntC(0), Len: n, Cap: n}
+}
+
+func init() {
+	s1 := func(f func(a string) Value) handler {
+		return func(in *Interp, st *State, fr *Frame, fn *ssa.Function, args []Value) Value {
+			return f(mustStr(args[0], fn.Name()))
+		}
+	}
+	s2 := func(f func(a, b string) Value) handler {
+		return func(in *Interp, st *State, fr *Frame, fn *ssa.Function, args []Value) Value {
+			return f(mustStr(args[0], fn.Name()), mustStr(args[1], fn.Name()))
+		}
+	}
+	more := map[string]handler{
+		"strings.IndexByte": func(in *Interp, st *State, fr *Frame, fn *ssa.Function, args []Value) Value {
+			return IntC(int64(strings.IndexByte(mustStr(args[0], "IndexByte"), byte(constI64(args[1], "IndexByte")))))
+		},
+		"strings.LastIndexByte": func(in *Interp, st *State, fr *Frame, fn *ssa.Function, args []Value) Value {
+			return IntC(int64(strings.LastIndexByte(mustStr(args[0], "LastIndexByte"), byte(constI64(args[1], "LastIndexByte")))))
+		},
+		"strings.IndexRune": func(in *Interp, st *State, fr *Frame, fn *ssa.Function, args []Value) Value {
+			return IntC(int64(strings.IndexRune(mustStr(args[0], "IndexRune"), rune(constI64(args[1], "IndexRune")))))
+		},
+		"strings.LastIndex": s2(func(a, b string) Value { return IntC(int64(strings.LastIndex(a, b))) }),
+		"strings.Count":     s2(func(a, b string) Value { return IntC(int64(strings.Count(a, b))) }),
+		"strings.EqualFold": s2(func(a, b string) Value { return BoolC(strings.EqualFold(a, b)) }),
+		"strings.TrimSuffix": s2(func(a, b string) Value { return StrV{S: strings.TrimSuffix(a, b)} }),
+		"strings.Trim":      s2(func(a, b string) Value { return StrV{S: strings.Trim(a, b)} }),
+		"strings.TrimSpace": s1(func(a string) Value { return StrV{S: strings.TrimSpace(a)} }),
+		"strings.ToLower":   s1(func(a string) Value { return StrV{S: strings.ToLower(a)} }),
+		"strings.ToUpper":   s1(func(a string) Value { return StrV{S: strings.ToUpper(a)} }),
+		"strings.ContainsRune": func(in *Interp, st *State, fr *Frame, fn *ssa.Function, args []Value) Value {
+			return BoolC(strings.ContainsRune(mustStr(args[0], "ContainsRune"), rune(constI64(args[1], "ContainsRune"))))
+		},
+		"strings.ContainsAny": s2(func(a, b string) Value { return BoolC(strings.ContainsAny(a, b)) }),
+		"strings.ReplaceAll": func(in *Interp, st *State, fr *Frame, fn *ssa.Function, args []Value) Value {
+			return StrV{S: strings.ReplaceAll(mustStr(args[0], "ReplaceAll"), mustStr(args[1], "ReplaceAll"), mustStr(args[2], "ReplaceAll"))}
+		},
+		"strings.Repeat": func(in *Interp, st *State, fr *Frame, fn *ssa.Function, args []Value) Value {
+			return StrV{S: strings.Repeat(mustStr(args[0], "Repeat"), int(constI64(args[1], "Repeat")))}
+		},
+		"strings.Split": func(in *Interp, st *State, fr *Frame, fn *ssa.Function, args []Value) Value {
+			return in.strSlice(st, strings.Split(mustStr(args[0], "Split"), mustStr(args[1], "Split")))
+		},
+		"strings.Fields": func(in *Interp, st *State, fr *Frame, fn *ssa.Function, args []Value) Value {
+			return in.strSlice(st, strings.Fields(mustStr(args[0], "Fields")))
+		},
+		"strings.Cut": func(in *Interp, st *State, fr *Frame, fn *ssa.Function, args []Value) Value {
+			a, b, ok := strings.Cut(mustStr(args[0], "Cut"), mustStr(args[1], "Cut"))
+			return TupleV{StrV{S: a}, StrV{S: b}, BoolC(ok)}
+		},
+		"strings.Join": func(in *Interp, st *State, fr *Frame, fn *ssa.Function, args []Value) Value {
+			sl := args[0].(SliceV)
+			n := in.concretize(st, sl.Len, 0, 4096)
+			ss := make([]string, n)
+			for i := range ss {
+				ss[i] = mustStr(in.sliceElem(st, sl, int64(i)), "strings.Join")
+			}
+			return StrV{S: strings.Join(ss, mustStr(args[1], "strings.Join"))}
+		},
+		"strconv.Atoi": func(in *Interp, st *State, fr *Frame, fn *ssa.Function, args []Value) Value {
+			v, err := strconv.Atoi(mustStr(args[0], "strconv.Atoi"))
+			if err != nil {
+				site := in.posOf(fr.Block.Instrs[fr.PC], fr)
+				id := st.alloc(OpaqueErr{Site: site, Msg: err.Error()})
+				return TupleV{IntC(0), IfaceV{T: opaqueErrType, V: PtrV{Obj: id}}}
+			}
+			return TupleV{IntC(int64(v)), IfaceV{}}
+		},
+	}
+	for k, v := range more {
+		intrinsics[k] = v
+	}
+}
+
 func (in *Interp) beUint(st *State, s SliceV, n int64) Value {
 	in.require(st, Le(IntC(n), s.Len), "index out of range")
 	r := IntC(0)
